@@ -502,7 +502,8 @@ class ConcurrentVector {
    **/
   iterator insert(const_iterator pos, const T& value) {
     auto it = insertPartial(pos);
-    new (&*it) T(value);
+    // The slot at it holds a live (moved-from) element after insertPartial, so assign to it.
+    *it = value;
     return it;
   }
 
@@ -514,7 +515,8 @@ class ConcurrentVector {
    **/
   iterator insert(const_iterator pos, T&& value) {
     auto it = insertPartial(pos);
-    new (&*it) T(std::move(value));
+    // The slot at it holds a live (moved-from) element after insertPartial, so assign to it.
+    *it = std::move(value);
     return it;
   }
 
@@ -582,7 +584,11 @@ class ConcurrentVector {
     ++e;
     auto it = begin();
     it += (pos - it);
-    return std::move(pos + 1, const_iterator(e), it);
+    // Shift the tail down, destroy the vacated (moved-from) last element, and return the iterator
+    // following the removed element, as documented.
+    auto last = std::move(pos + 1, const_iterator(e), it);
+    last->~T();
+    return it;
   }
 
   /**
@@ -604,15 +610,14 @@ class ConcurrentVector {
 
     auto e_it = std::move(last, cend(), it);
 
-    if (e_it < last) {
-      // remove any values that were not already moved into
-      do {
-        --last;
-        last->~T();
-      } while (e_it != last);
-    }
+    // Destroy the vacated tail [e_it, end()): every element there is either untouched or moved-from.
+    auto e = end();
+    do {
+      --e;
+      e->~T();
+    } while (e_it != e);
     size_.fetch_sub(len, std::memory_order_relaxed);
-    return e_it;
+    return it;
   }
 
   /**
